@@ -32,10 +32,7 @@ func newMemoryView(mem memory.Memory) *memoryView {
 		lines = memoryLines(blocks)
 	}
 
-	var c *cursor.Cursor
-	if len(lines) > 0 {
-		c = cursor.New(len(lines))
-	}
+	c := cursor.New(len(lines))
 
 	idFmt := fmt.Sprintf("%%%dd", numDigits(len(lines), 10))
 	aChars := unsafe.Sizeof(model.Addr(0)) * 2
@@ -58,7 +55,7 @@ func (v *memoryView) MinLines() int { return 5 }
 func (v *memoryView) MaxLines() int { return -1 }
 
 func (v *memoryView) Print(n int) error {
-	if v.c == nil {
+	if len(v.lines) == 0 {
 		fmt.Printf("\n\n")
 		fmt.Printf("\tNO MEMORY TO SHOW\n")
 		fmt.Printf("\n\n")
